@@ -323,7 +323,7 @@ class FunctionVC:
         raise Unsupported('dict.get with a symbolic key on a concrete dict')
 
     def decode_model(self, I, recv, args, kwargs):
-        raise Unsupported('bytes.decode')
+        return models.decode_model(I, recv, args, kwargs)
 
     def regex_fact(self, I, pat, how, s, m):
         fb = self.reg.regex_facts.get(pat.pattern)
